@@ -227,15 +227,15 @@ fn simplify(ev: &Ev, viol: &Violation) -> Vec<Ev> {
                 out.push(Ev::SetupR { c: *c, cfg: x, kr: *kr, ks: *ks, enc: enc.clone(), model_only: *model_only });
             }
         }
-        Ev::SingleShotSeal { c, cfg, kr, ks, rng, pt, aad, inplace } => {
+        Ev::SingleShotSeal { c, cfg, kr, ks, ks_pub, rng, pt, aad, inplace } => {
             for p in shorter(pt) {
-                out.push(Ev::SingleShotSeal { c: *c, cfg: cfg.clone(), kr: *kr, ks: *ks, rng: rng.clone(), pt: p, aad: aad.clone(), inplace: *inplace });
+                out.push(Ev::SingleShotSeal { c: *c, cfg: cfg.clone(), kr: *kr, ks: *ks, ks_pub: *ks_pub, rng: rng.clone(), pt: p, aad: aad.clone(), inplace: *inplace });
             }
             for a in shorter(aad) {
-                out.push(Ev::SingleShotSeal { c: *c, cfg: cfg.clone(), kr: *kr, ks: *ks, rng: rng.clone(), pt: pt.clone(), aad: a, inplace: *inplace });
+                out.push(Ev::SingleShotSeal { c: *c, cfg: cfg.clone(), kr: *kr, ks: *ks, ks_pub: *ks_pub, rng: rng.clone(), pt: pt.clone(), aad: a, inplace: *inplace });
             }
             for x in simpler_cfg(cfg) {
-                out.push(Ev::SingleShotSeal { c: *c, cfg: x, kr: *kr, ks: *ks, rng: rng.clone(), pt: pt.clone(), aad: aad.clone(), inplace: *inplace });
+                out.push(Ev::SingleShotSeal { c: *c, cfg: x, kr: *kr, ks: *ks, ks_pub: *ks_pub, rng: rng.clone(), pt: pt.clone(), aad: aad.clone(), inplace: *inplace });
             }
         }
         Ev::RawOpen { r, ct, aad, tag } => {
